@@ -1088,9 +1088,118 @@ static uint64_t run_dual(const TinyLP& lp, int fmt, int wzo, Ctx& c)
 // ---------------------------------------------------------------------------------------------
 // replay
 // ---------------------------------------------------------------------------------------------
+
+// --- exact rational round trips with values that are NOT doubles ------------------------------------------------------------------
+// LP: min c0 x0 + x1;  row0: L <= a x0 + 3 x1 <= R;  row1: x0 - x1 >= -2;  lo0 <= x0 <= up0;  x1 >= 0.  One "slot pattern" takes menu values, everything
+// else stays at harmless defaults.  Written with writeFileRational (LP / MPS), read back in rational read mode, compared EXACTLY; rows are compared through the
+// interval [max lhs, min rhs] per distinct row vector, which is insensitive to the documented splitting of ranged rows in LP format.
+static std::vector<Q> rat_menu()
+{
+   Q p17 = 1; for(int i = 0; i < 17; ++i) p17 *= 10;
+   Q m30 = 1; for(int i = 0; i < 30; ++i) m30 /= 10;
+   Q third(1, 3);
+   Q big = 1; big <<= 80; big += 1;
+   Q tiny = 1; tiny >>= 90;
+   return {third, third + m30, p17, p17 + 1, Q(-7, 5), big, tiny, Q(2), Q(-2) - m30, Q(-2)};
+}
+static const char* RSLOT[] = {"row-sides", "col-bounds", "obj", "coef", "rhs-only", "lhs-only", "upper-only", "lower-only", "equality-row", "fixed-col"};
+static Rational q2r(const Q& q) { return Rational(q.get_mpq_t()); }
+static Q r2q(const Rational& r) { Q q(r.backend().data()); q.canonicalize(); return q; }
+static uint64_t run_rational_exact(int slot, int i1, int i2, int fmt, Ctx& c)
+{
+   std::vector<Q> M = rat_menu();
+   Q u = M[i1], v = M[i2];
+   std::string cs = std::string("Q|slot=") + std::to_string(slot) + ",a=" + std::to_string(i1) + ",b=" + std::to_string(i2) + ",fmt=" + std::to_string(fmt) + "|" + RSLOT[slot] + " " + u.get_str() + " " + v.get_str();
+   std::string sfx = std::string("@") + (fmt ? "MPS" : "LP") + ",rational[" + RSLOT[slot] + "]";
+   SoPlex A;
+   quiet(A);
+   A.setIntParam(SoPlex::SYNCMODE, SoPlex::SYNCMODE_AUTO);
+   A.setIntParam(SoPlex::OBJSENSE, SoPlex::OBJSENSE_MINIMIZE);
+   Rational inf = A.realParam(SoPlex::INFTY), ninf = -inf;
+   Rational c0 = 1, a = 1, L = ninf, R = 10, lo0 = ninf, up0 = inf;
+   switch(slot)
+   {
+   case 0: if(!(u < v)) return 0; L = q2r(u); R = q2r(v); break;
+   case 1: if(!(u < v)) return 0; lo0 = q2r(u); up0 = q2r(v); break;
+   case 2: c0 = q2r(u); break;
+   case 3: a = q2r(u); break;
+   case 4: R = q2r(u); break;
+   case 5: L = q2r(u); R = inf; break;
+   case 6: up0 = q2r(u); break;
+   case 7: lo0 = q2r(u); break;
+   case 8: L = q2r(u); R = q2r(u); break;
+   default: lo0 = q2r(u); up0 = q2r(u); break;
+   }
+   if(slot >= 2 && i2 != 0) return 0;
+   DSVectorRational e(0);
+   A.addColRational(LPColRational(c0, e, up0, lo0));
+   A.addColRational(LPColRational(Rational(1), e, inf, Rational(0)));
+   DSVectorRational r0(2), r1(2);
+   r0.add(0, a); r0.add(1, Rational(3));
+   r1.add(0, Rational(1)); r1.add(1, Rational(-1));
+   A.addRowRational(LPRowRational(L, r0, R));
+   A.addRowRational(LPRowRational(Rational(-2), r1, inf));
+   std::string path = wfile(fmt ? ".mps" : ".lp");
+   if(truncate(path.c_str(), 0) != 0) {}
+   try { A.writeFileRational(path.c_str(), nullptr, nullptr, nullptr, true); }
+   catch(const SPxException& ex) { c.violation("rational-exact:write-exception" + sfx, cs, ex.what()); return 2; }
+   SoPlex B;
+   quiet(B);
+   B.setIntParam(SoPlex::SYNCMODE, SoPlex::SYNCMODE_AUTO);
+   B.setIntParam(SoPlex::READMODE, SoPlex::READMODE_RATIONAL);
+   c.count("rational_exact.cases");
+   if(!B.readFile(path.c_str(), nullptr, nullptr, nullptr)) { c.violation("rational-exact:read-failed" + sfx, cs, "file written by writeFileRational is rejected"); return 3; }
+   // columns (names are default names in both directions, so the order is kept)
+   if(B.numColsRational() != 2) { c.violation("rational-exact:column-count" + sfx, cs, std::to_string(B.numColsRational()) + " columns read back"); return 4; }
+   auto isInf = [&](const Rational & r) { return r >= inf; };
+   auto isNinf = [&](const Rational & r) { return r <= ninf; };
+   auto sameExt = [&](const Rational & x, const Rational & y) { return (isInf(x) && isInf(y)) || (isNinf(x) && isNinf(y)) || (!isInf(x) && !isInf(y) && !isNinf(x) && !isNinf(y) && x == y); };
+   for(int j = 0; j < 2; ++j)
+   {
+      if(!sameExt(B.lowerRational(j), A.lowerRational(j)) || !sameExt(B.upperRational(j), A.upperRational(j)))
+      { c.violation("rational-exact:bounds-differ" + sfx, cs, "column " + std::to_string(j) + ": written [" + A.lowerRational(j).str() + "," + A.upperRational(j).str() + "] read [" + B.lowerRational(j).str() + "," + B.upperRational(j).str() + "]"); return 5; }
+      if(B.objRational(j) != A.objRational(j)) { c.violation("rational-exact:objective-differs" + sfx, cs, "column " + std::to_string(j) + ": written " + A.objRational(j).str() + " read " + B.objRational(j).str()); return 6; }
+   }
+   // rows: interval per distinct row vector
+   auto intervals = [&](SoPlex & S)
+   {
+      std::map<std::string, std::pair<Rational, Rational>> iv;
+      for(int i = 0; i < S.numRowsRational(); ++i)
+      {
+         const SVectorRational& rv = S.rowVectorRational(i);
+         std::map<int, std::string> ent;
+         for(int k = 0; k < rv.size(); ++k) if(rv.value(k) != 0) ent[rv.index(k)] = rv.value(k).str();
+         std::string key;
+         for(auto& kv : ent) key += std::to_string(kv.first) + ":" + kv.second + ";";
+         Rational l = S.lhsRational(i), r = S.rhsRational(i);
+         if(!iv.count(key)) iv[key] = {l, r};
+         else { if(l > iv[key].first) iv[key].first = l; if(r < iv[key].second) iv[key].second = r; }
+      }
+      return iv;
+   };
+   auto ia = intervals(A), ib = intervals(B);
+   if(ia.size() != ib.size()) { c.violation("rational-exact:row-vectors-differ" + sfx, cs, std::to_string(ia.size()) + " distinct row vectors written, " + std::to_string(ib.size()) + " read"); return 7; }
+   for(auto& kv : ia)
+   {
+      if(!ib.count(kv.first)) { c.violation("rational-exact:row-vectors-differ" + sfx, cs, "row vector {" + kv.first + "} is missing after the round trip"); return 7; }
+      auto& w = kv.second; auto& g = ib[kv.first];
+      if(!sameExt(w.first, g.first) || !sameExt(w.second, g.second))
+      { c.violation("rational-exact:row-sides-differ" + sfx, cs, "row {" + kv.first + "}: written [" + w.first.str() + "," + w.second.str() + "] read [" + g.first.str() + "," + g.second.str() + "]"); return 8; }
+   }
+   c.count("rational_exact.equal");
+   if(c.wantSample() && slot == 0 && i1 == 0 && i2 == 1) c.sample("{\"rational_exact_round_trip\":" + jstr(cs) + "}");
+   return 9;
+}
 static void replay_one(const std::string& cs, Ctx& c)
 {
    auto p = split(cs, '|');
+   if(p.size() >= 2 && p[0] == "Q")
+   {
+      int slot = 0, a = 0, b = 0, fmt = 0;
+      sscanf(p[1].c_str(), "slot=%d,a=%d,b=%d,fmt=%d", &slot, &a, &b, &fmt);
+      run_rational_exact(slot, a, b, fmt, c);
+      return;
+   }
    if(p.size() >= 3 && p[0] == "L")
    {
       int ctx = atoi(p[1].c_str() + 4);
@@ -1337,6 +1446,24 @@ int main(int argc, char** argv)
          for(int v = 0; v < 4; ++v) { set_sub(v); k.cfg = base8(v); h = h * 31 + run_roundtrip(k, c); }
          return h;
       }, [&](uint64_t idx, uint64_t sub) { RTCase k; mk(idx, k.base); k.cfg = base8((int)sub); return rt_case(k); }, o, rtsfx);
+   }
+   // exact rational round trips (values that are not doubles)
+   if(want("rational-exact"))
+   {
+      const uint64_t NM = rat_menu().size();
+      rep.phase("round trips: rational-exact (10 slot patterns x non-double rational values x LP/MPS)", 10 * NM * NM * 2, [&, NM](uint64_t idx, int, Ctx & c) -> uint64_t
+      {
+         int fmt = int(idx % 2); idx /= 2;
+         int b = int(idx % NM); idx /= NM;
+         int a = int(idx % NM); idx /= NM;
+         return run_rational_exact((int)idx, a, b, fmt, c);
+      }, [&, NM](uint64_t idx, uint64_t)
+      {
+         int fmt = int(idx % 2); idx /= 2;
+         int b = int(idx % NM); idx /= NM;
+         int a = int(idx % NM); idx /= NM;
+         return "Q|slot=" + std::to_string(idx) + ",a=" + std::to_string(a) + ",b=" + std::to_string(b) + ",fmt=" + std::to_string(fmt) + "|";
+      }, o);
    }
    // dual writer
    if(want("dual"))
